@@ -71,6 +71,19 @@ theorem C17_action_paints_source :
     white1 = ⟨27, 27, 27⟩ ∧ white2 = ⟨100, 100, 100⟩ ∧ white3 = ⟨255, 255, 255⟩ ∧ red = ⟨255, 0, 0⟩ := by
   decide
 
+/-- the painting passes of the refresh loop in source order — everything 'unavailable', the keyboard mapping in class
+    colours, MIDI-input notes of the channels 15 down to 0 in their channel colours, then the current channel in the
+    external colour, then the device's own notes in the active colour — which is the order of `Led.frame`
+    (`frameStrip`/`framePre`, `frameBase`, `frameExt`, the final fold) and what "last write wins" in `C17_refinement` rests on -/
+theorem C17_pass_order_source :
+    Gen.ledPasses =
+      [("for i := 0; i < len(ledArray); i++", ["d.config.OpenRGB.Colors.Unavailable"]),
+       ("for code, key := range d.config.KeyMappings[d.mapping].Midi[\"\"]", ["color"]),
+       ("for ch := 15; ch >= 0; ch--", ["channelColors[byte(ch)]"]),
+       ("for note, _ := range d.externalNoteTracker[d.channel]", ["d.config.OpenRGB.Colors.ActiveExternal"]),
+       ("for _, noteAndChannel := range d.noteTracker", ["d.config.OpenRGB.Colors.Active"])] := by
+  decide
+
 /-- LED names are distinct, so `LedNameToKey` (built by ranging over a Go map) is well defined -/
 theorem C17_led_names_distinct : (Gen.keyToLedName.map (·.2)).Nodup := by decide
 
